@@ -30,18 +30,6 @@ pub struct FillCase {
     pub own: Option<Xf>,
 }
 
-/// the same source with its user-space-to-source-space transform preceded by `pre`
-fn moved_source<'a>(s: &Source<'a>, pre: &Transform) -> Source<'a> {
-    match s.clone() {
-        Source::Solid(c) => Source::Solid(c),
-        Source::Image(i, e, fl, t) => Source::Image(i, e, fl, pre.then(&t)),
-        Source::RadialGradient(g, sp, t) => Source::RadialGradient(g, sp, pre.then(&t)),
-        Source::TwoCircleRadialGradient(g, sp, c1, r1, c2, r2, t) => Source::TwoCircleRadialGradient(g, sp, c1, r1, c2, r2, pre.then(&t)),
-        Source::LinearGradient(g, sp, t) => Source::LinearGradient(g, sp, pre.then(&t)),
-        Source::SweepGradient(g, sp, a, b, t) => Source::SweepGradient(g, sp, a, b, pre.then(&t)),
-    }
-}
-
 pub fn check_fill(c: &FillCase) -> CheckResult {
     let mut o = Outcome::new();
     o.fp = fp_of(c);
